@@ -7,12 +7,18 @@ CHECKS = {
  "C03": ("Bit-field accessor arithmetic: Gallina model of bitfield_unit.rs (little/big endian, u64 and usize paths) proved equal to a bit-vector reference for every storage, offset, width and value under the guard width+offset%8<=64; the guard is shown necessary by a refutation witness (known finding). Model tied to the code by exhaustive differential execution of the verbatim source (release and debug semantics, all 8 entry points) against the OCaml extraction.",
          "Coq kernel; ExtrOcamlBasic extraction; OCaml driver; Rust integer semantics transcribed by hand; allocation of units and accessor codegen exercised end-to-end only",
          "Coq proof (bit-level extensionality) + extraction-based correspondence sweep", "DESIGN.md §6 C03"),
+ "C07": ("Fix-point analyses: a generic theorem about the LIFO work-list solver (terminates within the stated fuel; its answer is a fixed point and the least one; any permutation of the allowlisted items, hence any initial order and any dependency-vector order, gives the same facts) for every analysis of the join-of-reads shape; five analyses (has_vtable, sizedness, has_destructor, has_float, has_type_param_in_array) are transcribed and shown to read only over edge kinds their consider_edge filter (regenerated from source each run) accepts, for all regular items; the irregular items (stdint-named aliases, opaque composites) are characterised and a refutation witness shows order dependence there. Ties: IR dumps of repository headers and generated graphs (modelled Trace == real edges, model run == implementation's answer), the H2 post-convergence sweep on the real constrain functions with consulted-fact probes, and a declaration re-ordering experiment.",
+         "Coq kernel; translator for consider_edge; hooks H1/H2; rules transcribed by hand; CannotDerive and UsedTemplateParameters covered by the sweep and re-ordering only; libclang giving an isomorphic AST for re-ordered headers is assumed",
+         "Coq proof (least fixed point, schedule independence) + dump-based correspondence + fix-point sweep", "DESIGN.md §6 C07"),
  "C13": ("Flag round trip: for the ~93 table-driven option rows a generic theorem (wf tables => parse(print o) agrees with o on every printed field, print is stable, defaults agree; the leading-dash hazard and a missing flag are shown to break it) is instantiated on the tables regenerated from options/mod.rs and options/cli.rs each run (including secondary effects of builder methods); command_line_flags compared with the model inside Coq; every Builder method (also the custom, unmodelled ones), boolean pairs and random configurations are round-tripped on the real library (flags and generated bindings), as is every clap flag in the CLI->builder->flags direction.",
          "Coq kernel; translator for options!/clap struct/apply_args!; clap's grammar modelled by hand; custom as_args closures exercised dynamically only",
          "Coq proof (codec round trip over regenerated tables) + in-Coq differential check + dynamic round trips", "DESIGN.md §6 C13"),
  "C14": ("Feature gating: monotonicity, nightly-top, not-too-early w.r.t. a release-notes specification, edition rules and defaults proved for ANY feature table and re-instantiated on the table regenerated from features.rs each run; RustFeatures::new compared with the model on every minor/edition inside Coq; CLI token scan per target.",
          "Coq kernel; translator for the two macro invocations; Spec.v stabilisation table hand-written from release notes; macro bodies transcribed by hand and tied by the exhaustive differential run",
          "Coq proof over regenerated table + in-Coq differential check", "DESIGN.md §6 C14"),
+ "C15": ("Formatter outcomes: the decision table of format_tokens/write is a total function of the child's observable outcome; theorems: every signalled failure (spawn, pipe, wait, signal, exit status outside {0,3}, non-UTF-8 output) yields prefix ++ unformatted source, success yields the formatter's bytes, the header comment and raw lines are independent of formatter and child. Tie: the real Bindings::write driven with 16 scripted fake formatters x sizes x prefix options, compared with the model inside Coq; token sequences of none/rustfmt/prettyplease output compared (modulo trailing commas and punctuation spacing) on repository headers.",
+         "Coq kernel; fake formatter scripts; OS pipe/process semantics assumed (a child that neither reads nor exits hangs: not exhibited); real rustfmt/prettyplease token preservation sampled",
+         "Coq proof (total decision table) + fault-injection correspondence", "DESIGN.md §6 C15"),
  "C17": ("Depfile and dependency reporting: escaping proved injective and exactly inverted by the cargo/ninja dialect reader for all byte strings; GNU make round trip proved under an explicit path condition and refuted outside it (known findings); reported set = inputs U included files, sorted, duplicate-free; DepfileSpec::to_string compared with the model inside Coq, the model's make reader validated against real GNU make, include DAGs end-to-end against clang -H, env-var read sites inventoried by a translator.",
          "Coq kernel; hook for to_string; GNU make 4.3 and clang as oracles; libclang's inclusion directives are an oracle list in the model; dialect reader is specification-side only",
          "Coq proof (codec round trip) + in-Coq differential check + end-to-end DAGs", "DESIGN.md §6 C17"),
